@@ -145,6 +145,10 @@ def cp_als(  # noqa: PLR0912,PLR0913,PLR0915
         optdims = np.arange(N)
     else:
         optdims = parse_one_d(optdims)
+        if tuple(sorted(set(optdims.tolist()))) != tuple(sorted(optdims.tolist())) or (
+            not set(optdims.tolist()) <= set(range(N))
+        ):
+            assert False, "Optdims must be distinct modes of the tensor"
 
     # Error checking
     assert rank > 0, "Number of components requested must be positive"
